@@ -99,7 +99,11 @@ def lean_deps(mods):
 
 def run_translators(spec, res):
     for t in spec.get("translators", []):
-        rc, out, err = sh(["python3", f"{ROOT}/tools/translate/{t}.py", REPO, ROOT], timeout=300)
+        try:
+            rc, out, err = sh(["python3", f"{ROOT}/tools/translate/{t}.py", REPO, ROOT], timeout=300)
+        except subprocess.TimeoutExpired:
+            # e.g. the lock-order workload of C38 deadlocking on the changed code: a failed obligation, not a crash
+            rc, out, err = 124, "", f"translator {t} did not finish within 300 s (hang / deadlock of the code it runs?)"
         if rc != 0:
             res["p_failures"].append({"kind": "translator", "name": t, "detail": (out + err)[-2000:]})
         else:
